@@ -214,16 +214,22 @@ def compress(tree, mand_labels, zmode, rng):
     return listed, ''.join(out)
 
 
-def database(rng, nlemmas=2, zmode='random', **kw):
+def tree_size(t):
+    return 1 + sum(tree_size(c) for c in t[1])
+
+
+def database(rng, nlemmas=2, zmode='random', deep=False, **kw):
     """returns (text, [lemma labels], {label: statement text})"""
     g = Gen(rng, **kw)
     lines = g.preamble()
     for label in g.order:
         lines.append(g.assertion_text(label))
     lemmas = []
-    facts = g.derive(rng.randrange(6, 14))
+    facts = g.derive(rng.randrange(6, 14) if not deep else rng.randrange(14, 30))
     facts = [f for f in facts if len(tvars(f[0]) & set(VARS)) <= 3]
     rng.shuffle(facts)
+    if deep:
+        facts.sort(key=lambda f: -tree_size(f[1]))
     for i, (t, pf) in enumerate(facts[:nlemmas]):
         label = f'lemma-{i}' if i < nlemmas - 1 and i < len(facts[:nlemmas]) - 1 else 'goal'
         mand = [f'{v}-is-pattern' for v in VARS if v in tvars(t)]
